@@ -179,7 +179,9 @@ def main():
         a = vf.run_program(hbin, [small])[small.cid]
         b = vf.run_program(vf.driver_path(prop.DRIVER), [small])[small.cid]
         dd = vf.compare_case(a, b) or d
-        canon = " ; ".join(small.ops)
+        # what a `known:` pattern is matched against: the shrunk operations and, behind " => ", what the
+        # implementation answered at the first difference
+        canon = " ; ".join(small.ops) + " => " + str(dd.get("impl", ""))
         hit = [k for k in known if re.search(k[0], canon)]
         if hit:
             known_lines.append("KNOWN-FINDING: property=%s %s" % (pid, hit[0][1]))
